@@ -29,13 +29,20 @@ pub fn generate(scope: &str, name: &str, seed: u64, k: u64, rng: &mut Rng, tier:
         "pipe" => {
             let pick = match std::env::var("RSV_PIPE_PROFILE") {
                 Ok(v) => v.parse::<u64>().unwrap_or(0), // experiments only (mutrate.sh)
-                Err(_) => rng.below(10),
+                Err(_) => rng.below(15),
             };
             let p = match pick {
                 0..=1 => Profile::small(),
                 2..=3 => Profile::maint_heavy(),
                 4 => Profile::fleet_heavy(),
-                5..=7 | 10 => Profile::cycle_heavy(),
+                5..=7 => Profile::cycle_heavy(),
+                10..=12 => Profile::multi_fleet(),
+                13..=14 => {
+                    // reachability that is not transitive (a -> maintenance slot -> b, but not a -> b)
+                    let mut p = if rng.chance(50) { Profile::maint_heavy() } else { Profile::fleet_heavy() };
+                    p.non_transitive = true;
+                    p
+                }
                 _ => Profile::medium(),
             };
             let inst = gen_instance(rng, &p);
